@@ -33,12 +33,15 @@ CONSTANTS
                     \* for the key and takes it again afterwards ("do not sit on the global mutex")
     AbandonReleasesLocks, \* TRUE: when a request's caller goes away (its context ends) while the rules run, the ruler returns at once - its
                     \* deferred unlocks run - while the rule evaluation it started carries on with the fetched record
+    FetchCache,     \* TRUE: the store keeps the last value written per key in memory: Store (single requests) updates it, BatchStore
+                    \* (batches) does not, Fetch prefers it ("save a database read for keys rewritten on every request")
     StoreMode       \* "atomic" (shipped: one committed transaction replaces the record) | "deleteThenSet" (the old record is
                     \* removed in one committed transaction and the new one written in a second)
 
 VARIABLES
     def,        \* Reqs -> the request's content (chosen from Catalog before it is invoked)
     disk,       \* Keys -> [s, t, ps]        survives Crash
+    cache,      \* Keys -> [s, t, ps]        what the store remembers in memory (-2: nothing) - only read when FetchCache
     mapLock,    \* holder of the locker-wide mutex or None
     holder,     \* Keys -> holder of the key's mutex or None
     pc,         \* Reqs -> control state
@@ -53,7 +56,7 @@ VARIABLES
     crashes, faults,
     closed      \* the slashing database has been closed (shutdown has begun): reads and writes fail from now on
 
-vars == <<def, disk, mapLock, holder, pc, idx, loc, res, nxt, sigs, released, order, faulted, crashes, faults, closed>>
+vars == <<def, disk, cache, mapLock, holder, pc, idx, loc, res, nxt, sigs, released, order, faulted, crashes, faults, closed>>
 
 None == "none"
 N(r) == Len(def[r].ents)
@@ -67,12 +70,14 @@ LockSeq(r) == IF LockMode = "none" THEN <<>>
               ELSE [i \in 1 .. N(r) |-> Ent(r, i).k]
 
 NoRec == [s |-> -1, t |-> -1, ps |-> -1]
+NoCache == [s |-> -2, t |-> -2, ps |-> -2]
 Unchosen == [kind |-> "none", ents |-> <<>>]
 Fill(r, v) == [i \in 1 .. N(r) |-> v]
 
 Init ==
     /\ def = [r \in Reqs |-> IF Cardinality(Catalog(r)) = 1 THEN CHOOSE d \in Catalog(r) : TRUE ELSE Unchosen]
     /\ disk = [k \in Keys |-> NoRec]
+    /\ cache = [k \in Keys |-> NoCache]
     /\ mapLock = None
     /\ holder = [k \in Keys |-> None]
     /\ pc = [r \in Reqs |-> "idle"]
@@ -94,7 +99,7 @@ CanFault == faults < MaxFaults
 Choose(r) ==
     /\ def[r] = Unchosen
     /\ \E d \in Catalog(r) : def' = [def EXCEPT ![r] = d]
-    /\ UNCHANGED <<disk, mapLock, holder, pc, idx, loc, res, nxt, sigs, released, order, faulted, crashes, faults, closed>>
+    /\ UNCHANGED <<disk, cache, mapLock, holder, pc, idx, loc, res, nxt, sigs, released, order, faulted, crashes, faults, closed>>
 
 Invoke(r) ==
     /\ pc[r] = "idle" /\ def[r] # Unchosen
@@ -102,7 +107,7 @@ Invoke(r) ==
     /\ loc' = [loc EXCEPT ![r] = Fill(r, NoRec)]
     /\ res' = [res EXCEPT ![r] = Fill(r, "UNKNOWN")]
     /\ nxt' = [nxt EXCEPT ![r] = Fill(r, NoRec)]
-    /\ UNCHANGED <<def, disk, mapLock, holder, idx, sigs, released, order, faulted, crashes, faults, closed>>
+    /\ UNCHANGED <<def, disk, cache, mapLock, holder, idx, sigs, released, order, faulted, crashes, faults, closed>>
 
 PreCheckFail(r) ==      \* any precheck dependency fails: the request is answered without reaching the ruler
     /\ pc[r] = "idle" /\ CanFault /\ def[r] # Unchosen
@@ -110,7 +115,7 @@ PreCheckFail(r) ==      \* any precheck dependency fails: the request is answere
     /\ faulted' = faulted \cup {<<r, 0>>}
     /\ res' = [res EXCEPT ![r] = Fill(r, "FAILED")]
     /\ Goto(r, "reply")
-    /\ UNCHANGED <<def, disk, mapLock, holder, idx, loc, nxt, sigs, released, order, crashes, closed>>
+    /\ UNCHANGED <<def, disk, cache, mapLock, holder, idx, loc, nxt, sigs, released, order, crashes, closed>>
 
 (* ---- ruler: duplicate-key validation (runner.go:60-81) ---- *)
 Validate(r) ==
@@ -121,14 +126,14 @@ Validate(r) ==
          ELSE /\ Goto(r, IF UsePreLock /\ LockMode # "none" THEN "prelock" ELSE "lock")
               /\ UNCHANGED res
     /\ idx' = [idx EXCEPT ![r] = 1]
-    /\ UNCHANGED <<def, disk, mapLock, holder, loc, nxt, sigs, released, order, faulted, crashes, faults, closed>>
+    /\ UNCHANGED <<def, disk, cache, mapLock, holder, loc, nxt, sigs, released, order, faulted, crashes, faults, closed>>
 
 (* ---- locking (runner.go:82-94, syncmap) ---- *)
 PreLock(r) ==
     /\ pc[r] = "prelock" /\ mapLock = None
     /\ mapLock' = r
     /\ Goto(r, "lock")
-    /\ UNCHANGED <<def, disk, holder, idx, loc, res, nxt, sigs, released, order, faulted, crashes, faults, closed>>
+    /\ UNCHANGED <<def, disk, cache, holder, idx, loc, res, nxt, sigs, released, order, faulted, crashes, faults, closed>>
 
 LockNext(r) ==
     /\ pc[r] = "lock"
@@ -137,7 +142,7 @@ LockNext(r) ==
          /\ holder[k] = None          \* sync.Mutex is not re-entrant: a second Lock by the holder blocks too
          /\ holder' = [holder EXCEPT ![k] = r]
     /\ idx' = [idx EXCEPT ![r] = idx[r] + 1]
-    /\ UNCHANGED <<def, disk, mapLock, pc, loc, res, nxt, sigs, released, order, faulted, crashes, faults, closed>>
+    /\ UNCHANGED <<def, disk, cache, mapLock, pc, loc, res, nxt, sigs, released, order, faulted, crashes, faults, closed>>
 
 \* design mutant BusyDropsMap: the key is busy - release the locker-wide mutex, wait for the key, take the mutex again
 LockYield(r) ==
@@ -145,18 +150,18 @@ LockYield(r) ==
     /\ holder[LockSeq(r)[idx[r]]] # None
     /\ mapLock' = None
     /\ Goto(r, "lockwait")
-    /\ UNCHANGED <<def, disk, holder, idx, loc, res, nxt, sigs, released, order, faulted, crashes, faults, closed>>
+    /\ UNCHANGED <<def, disk, cache, holder, idx, loc, res, nxt, sigs, released, order, faulted, crashes, faults, closed>>
 LockWaitAcq(r) ==
     /\ pc[r] = "lockwait"
     /\ LET k == LockSeq(r)[idx[r]] IN holder[k] = None /\ holder' = [holder EXCEPT ![k] = r]
     /\ Goto(r, "relock")
-    /\ UNCHANGED <<def, disk, mapLock, idx, loc, res, nxt, sigs, released, order, faulted, crashes, faults, closed>>
+    /\ UNCHANGED <<def, disk, cache, mapLock, idx, loc, res, nxt, sigs, released, order, faulted, crashes, faults, closed>>
 ReLock(r) ==
     /\ pc[r] = "relock" /\ mapLock = None
     /\ mapLock' = r
     /\ idx' = [idx EXCEPT ![r] = idx[r] + 1]
     /\ Goto(r, "lock")
-    /\ UNCHANGED <<def, disk, holder, loc, res, nxt, sigs, released, order, faulted, crashes, faults, closed>>
+    /\ UNCHANGED <<def, disk, cache, holder, loc, res, nxt, sigs, released, order, faulted, crashes, faults, closed>>
 
 PostLock(r) ==
     /\ pc[r] = "lock"
@@ -164,15 +169,20 @@ PostLock(r) ==
     /\ mapLock' = IF mapLock = r THEN None ELSE mapLock
     /\ idx' = [idx EXCEPT ![r] = 1]
     /\ Goto(r, IF StoreBeforeSign THEN "fetch" ELSE "fetch")
-    /\ UNCHANGED <<def, disk, holder, loc, res, nxt, sigs, released, order, faulted, crashes, faults, closed>>
+    /\ UNCHANGED <<def, disk, cache, holder, loc, res, nxt, sigs, released, order, faulted, crashes, faults, closed>>
 
 (* ---- rules: fetch the record(s) (storage.go Fetch) ---- *)
+\* what a fetch returns: the record on disk - unless the (mutant) store remembers a value for that part of the record
+Read(k) == IF ~FetchCache THEN disk[k]
+           ELSE [s  |-> IF cache[k].s # -2 THEN cache[k].s ELSE disk[k].s,
+                 t  |-> IF cache[k].t # -2 THEN cache[k].t ELSE disk[k].t,
+                 ps |-> IF cache[k].ps # -2 THEN cache[k].ps ELSE disk[k].ps]
 Fetch(r) ==
     /\ pc[r] = "fetch" /\ ~closed
     /\ idx[r] <= N(r)
-    /\ loc' = [loc EXCEPT ![r][idx[r]] = disk[Ent(r, idx[r]).k]]
+    /\ loc' = [loc EXCEPT ![r][idx[r]] = Read(Ent(r, idx[r]).k)]
     /\ idx' = [idx EXCEPT ![r] = idx[r] + 1]
-    /\ UNCHANGED <<def, disk, mapLock, holder, pc, res, nxt, sigs, released, order, faulted, crashes, faults, closed>>
+    /\ UNCHANGED <<def, disk, cache, mapLock, holder, pc, res, nxt, sigs, released, order, faulted, crashes, faults, closed>>
 
 FetchFail(r) ==         \* read error or undecodable record: the whole request FAILED, nothing stored
     /\ pc[r] = "fetch" /\ idx[r] <= N(r) /\ CanFault /\ Kind(r) # "gen"
@@ -180,7 +190,7 @@ FetchFail(r) ==         \* read error or undecodable record: the whole request F
     /\ faulted' = faulted \cup {<<r, 0>>}
     /\ res' = [res EXCEPT ![r] = Fill(r, "FAILED")]
     /\ Goto(r, "unlock")
-    /\ UNCHANGED <<def, disk, mapLock, holder, idx, loc, nxt, sigs, released, order, crashes, closed>>
+    /\ UNCHANGED <<def, disk, cache, mapLock, holder, idx, loc, nxt, sigs, released, order, crashes, closed>>
 
 \* the database was closed under the request (shutdown): the read fails, the whole request FAILED
 FetchClosed(r) ==
@@ -188,7 +198,7 @@ FetchClosed(r) ==
     /\ faulted' = faulted \cup {<<r, 0>>}
     /\ res' = [res EXCEPT ![r] = Fill(r, "FAILED")]
     /\ Goto(r, "unlock")
-    /\ UNCHANGED <<def, disk, mapLock, holder, idx, loc, nxt, sigs, released, order, crashes, faults, closed>>
+    /\ UNCHANGED <<def, disk, cache, mapLock, holder, idx, loc, nxt, sigs, released, order, crashes, faults, closed>>
 
 (* ---- rules: evaluate (pure) ---- *)
 EntRes(r, i) ==
@@ -210,7 +220,7 @@ Check(r) ==
     /\ order' = Append(order, r)
     /\ idx' = [idx EXCEPT ![r] = 1]
     /\ Goto(r, IF Kind(r) = "gen" THEN "unlock" ELSE IF UnlockEarly THEN "unlockE" ELSE "store")
-    /\ UNCHANGED <<def, disk, mapLock, holder, loc, sigs, released, faulted, crashes, faults, closed>>
+    /\ UNCHANGED <<def, disk, cache, mapLock, holder, loc, sigs, released, faulted, crashes, faults, closed>>
 
 (* ---- rules: store.  Single requests store only when approved (one Store); batches store every entry *)
 (* (BatchStore, modelled entry by entry, i.e. weaker than badger's write batch).                      *)
@@ -225,13 +235,13 @@ StoreDel(r) ==
     /\ pc[r] = "store" /\ idx[r] <= N(r) /\ ~closed /\ NeedsStore(r, idx[r])
     /\ disk' = [disk EXCEPT ![Ent(r, idx[r]).k] = Erase(@, r)]
     /\ Goto(r, "storeSet")
-    /\ UNCHANGED <<def, mapLock, holder, idx, loc, res, nxt, sigs, released, order, faulted, crashes, faults, closed>>
+    /\ UNCHANGED <<def, cache, mapLock, holder, idx, loc, res, nxt, sigs, released, order, faulted, crashes, faults, closed>>
 StoreSet(r) ==
     /\ pc[r] = "storeSet"
     /\ disk' = [disk EXCEPT ![Ent(r, idx[r]).k] = MergeRec(@, nxt[r][idx[r]], r)]
     /\ idx' = [idx EXCEPT ![r] = idx[r] + 1]
     /\ Goto(r, "store")
-    /\ UNCHANGED <<def, mapLock, holder, loc, res, nxt, sigs, released, order, faulted, crashes, faults, closed>>
+    /\ UNCHANGED <<def, cache, mapLock, holder, loc, res, nxt, sigs, released, order, faulted, crashes, faults, closed>>
 
 Store(r) ==
     /\ pc[r] = "store"
@@ -241,6 +251,9 @@ Store(r) ==
     /\ disk' = IF NeedsStore(r, idx[r])
                  THEN [disk EXCEPT ![Ent(r, idx[r]).k] = MergeRec(@, nxt[r][idx[r]], r)]
                  ELSE disk
+    /\ cache' = IF FetchCache /\ NeedsStore(r, idx[r]) /\ Kind(r) # "atts"      \* (Store remembers; BatchStore - kind "atts" - does not)
+                  THEN [cache EXCEPT ![Ent(r, idx[r]).k] = MergeRec(@, nxt[r][idx[r]], r)]
+                  ELSE cache
     /\ idx' = [idx EXCEPT ![r] = idx[r] + 1]
     /\ UNCHANGED <<def, mapLock, holder, pc, loc, res, nxt, sigs, released, order, faulted, crashes, faults, closed>>
 
@@ -252,7 +265,7 @@ StoreFail(r) ==         \* write error: the whole request FAILED (unless the mut
     /\ res' = IF FaultIgnored THEN res ELSE [res EXCEPT ![r] = Fill(r, "FAILED")]
     /\ idx' = [idx EXCEPT ![r] = 1]
     /\ Goto(r, IF UnlockEarly THEN "sign" ELSE "unlock")
-    /\ UNCHANGED <<def, disk, mapLock, holder, loc, nxt, sigs, released, order, crashes, closed>>
+    /\ UNCHANGED <<def, disk, cache, mapLock, holder, loc, nxt, sigs, released, order, crashes, closed>>
 
 StoreClosed(r) ==      \* the database was closed between the read and the write
     /\ pc[r] = "store" /\ idx[r] <= N(r) /\ closed
@@ -261,14 +274,14 @@ StoreClosed(r) ==      \* the database was closed between the read and the write
     /\ res' = [res EXCEPT ![r] = Fill(r, "FAILED")]
     /\ idx' = [idx EXCEPT ![r] = 1]
     /\ Goto(r, "unlock")
-    /\ UNCHANGED <<def, disk, mapLock, holder, loc, nxt, sigs, released, order, crashes, faults, closed>>
+    /\ UNCHANGED <<def, disk, cache, mapLock, holder, loc, nxt, sigs, released, order, crashes, faults, closed>>
 
 StoreDone(r) ==
     /\ pc[r] = "store"
     /\ idx[r] > N(r)
     /\ idx' = [idx EXCEPT ![r] = 1]
     /\ Goto(r, IF UnlockEarly THEN "sign" ELSE "unlock")
-    /\ UNCHANGED <<def, disk, mapLock, holder, loc, res, nxt, sigs, released, order, faulted, crashes, faults, closed>>
+    /\ UNCHANGED <<def, disk, cache, mapLock, holder, loc, res, nxt, sigs, released, order, faulted, crashes, faults, closed>>
 
 (* ---- the caller goes away while the rules run (context cancelled / deadline).  Shipped: nothing happens to the request - it carries on *)
 (* under its locks and its answer goes nowhere.  Design mutant AbandonReleasesLocks: the locks are let go now, the evaluation carries on.  *)
@@ -280,7 +293,7 @@ Abandon(r) ==
          THEN /\ holder' = [k \in Keys |-> IF holder[k] = r THEN None ELSE holder[k]]
               /\ mapLock' = IF mapLock = r THEN None ELSE mapLock
          ELSE UNCHANGED <<holder, mapLock>>
-    /\ UNCHANGED <<def, disk, pc, idx, loc, res, nxt, sigs, released, order, crashes, closed>>
+    /\ UNCHANGED <<def, disk, cache, pc, idx, loc, res, nxt, sigs, released, order, crashes, closed>>
 
 (* ---- deferred unlocks when RunRules returns ---- *)
 Unlock(r) ==
@@ -289,7 +302,7 @@ Unlock(r) ==
     /\ mapLock' = IF mapLock = r THEN None ELSE mapLock
     /\ idx' = [idx EXCEPT ![r] = 1]
     /\ Goto(r, IF pc[r] = "unlockE" THEN "store" ELSE "sign")
-    /\ UNCHANGED <<def, disk, loc, res, nxt, sigs, released, order, faulted, crashes, faults, closed>>
+    /\ UNCHANGED <<def, disk, cache, loc, res, nxt, sigs, released, order, faulted, crashes, faults, closed>>
 
 (* ---- signer: sign approved entries, one by one ---- *)
 Sign(r) ==
@@ -298,7 +311,7 @@ Sign(r) ==
     \* (in the design that lets an abandoned request's locks go, the abandoned caller is answered FAILED at once: nothing is signed for it)
     /\ sigs' = IF res[r][idx[r]] = "APPROVED" /\ ~(AbandonReleasesLocks /\ <<r, -1>> \in faulted) THEN [sigs EXCEPT ![r] = @ \cup {idx[r]}] ELSE sigs
     /\ idx' = [idx EXCEPT ![r] = idx[r] + 1]
-    /\ UNCHANGED <<def, disk, mapLock, holder, pc, loc, res, nxt, released, order, faulted, crashes, faults, closed>>
+    /\ UNCHANGED <<def, disk, cache, mapLock, holder, pc, loc, res, nxt, released, order, faulted, crashes, faults, closed>>
 
 SignFail(r) ==          \* hashing or signing fails for one entry: that entry FAILED
     /\ pc[r] = "sign" /\ idx[r] <= N(r) /\ CanFault
@@ -307,7 +320,7 @@ SignFail(r) ==          \* hashing or signing fails for one entry: that entry FA
     /\ faulted' = faulted \cup {<<r, idx[r]>>}
     /\ res' = [res EXCEPT ![r][idx[r]] = "FAILED"]
     /\ idx' = [idx EXCEPT ![r] = idx[r] + 1]
-    /\ UNCHANGED <<def, disk, mapLock, holder, pc, loc, nxt, sigs, released, order, crashes, closed>>
+    /\ UNCHANGED <<def, disk, cache, mapLock, holder, pc, loc, nxt, sigs, released, order, crashes, closed>>
 
 Msg(r, i) == LET e == Ent(r, i) IN
     IF Kind(r) = "prop" THEN [k |-> e.k, kind |-> "prop", s |-> -1, t |-> -1, slot |-> e.slot, root |-> e.root]
@@ -319,7 +332,7 @@ Reply(r) ==
        \/ pc[r] = "reply"
     /\ released' = released \cup {Msg(r, i) : i \in sigs[r]}
     /\ Goto(r, "done")
-    /\ UNCHANGED <<def, disk, mapLock, holder, idx, loc, res, nxt, sigs, order, faulted, crashes, faults, closed>>
+    /\ UNCHANGED <<def, disk, cache, mapLock, holder, idx, loc, res, nxt, sigs, order, faulted, crashes, faults, closed>>
 
 (* ---- variant: sign first, store afterwards (mutant StoreBeforeSign = FALSE) is expressed by     *)
 (* releasing at Check time: the signature may leave before the record is on disk.                  *)
@@ -330,7 +343,7 @@ EarlySign(r) ==
     /\ \E i \in 1 .. N(r) : res[r][i] = "APPROVED"
     /\ sigs' = [sigs EXCEPT ![r] = {i \in 1 .. N(r) : res[r][i] = "APPROVED"}]
     /\ released' = released \cup {Msg(r, i) : i \in {j \in 1 .. N(r) : res[r][j] = "APPROVED"}}
-    /\ UNCHANGED <<def, disk, mapLock, holder, pc, idx, loc, res, nxt, order, faulted, crashes, faults, closed>>
+    /\ UNCHANGED <<def, disk, cache, mapLock, holder, pc, idx, loc, res, nxt, order, faulted, crashes, faults, closed>>
 
 (* ---- kill -9 and restart on the same directory ---- *)
 Live(r) == pc[r] \notin {"idle", "done", "dead"}
@@ -342,13 +355,14 @@ Crash ==
     /\ mapLock' = None
     /\ holder' = [k \in Keys |-> None]
     /\ closed' = FALSE           \* the restarted process opens the database again
+    /\ cache' = [k \in Keys |-> NoCache]
     /\ UNCHANGED <<def, disk, idx, loc, res, nxt, sigs, released, order, faulted, faults>>
 
 \* shutdown begins: the store is closed while requests may be in flight (MaxCloses = 0 switches it off)
 CloseStore ==
     /\ MaxCloses > 0 /\ ~closed
     /\ closed' = TRUE
-    /\ UNCHANGED <<def, disk, mapLock, holder, pc, idx, loc, res, nxt, sigs, released, order, faulted, crashes, faults>>
+    /\ UNCHANGED <<def, disk, cache, mapLock, holder, pc, idx, loc, res, nxt, sigs, released, order, faulted, crashes, faults>>
 
 Step(r) == \/ Choose(r) \/ Invoke(r) \/ PreCheckFail(r) \/ Validate(r) \/ PreLock(r) \/ LockNext(r) \/ LockYield(r) \/ LockWaitAcq(r) \/ ReLock(r) \/ PostLock(r)
            \/ Fetch(r) \/ FetchFail(r) \/ FetchClosed(r) \/ Check(r) \/ Abandon(r) \/ Store(r) \/ StoreDel(r) \/ StoreSet(r) \/ StoreFail(r) \/ StoreClosed(r) \/ StoreDone(r)
